@@ -14,11 +14,6 @@ use std::sync::Arc;
 fn oracle() -> Oracle {
     Arc::new(|run: &Run, out: &mut Vec<Finding>| {
         lin::check_reads(run, out);
-        for c in run.calls.iter() {
-            if let Res::Panicked(m) = &c.res {
-                out.push(Finding::new("caller-panic", format!("panic:{}", normalize_panic(m)), format!("{} panicked: {}", c.op.short(), m)));
-            }
-        }
     })
 }
 
